@@ -632,12 +632,15 @@ fn exec_stmt(w: &Rc<World>, env: &mut Vec<H>, run: &mut Run, s: &Stmt) {
             hnd.dispose();
             // context values go last: they are still there while the cleanups run and the children are disposed
             w.sh.borrow_mut().provided[seq].clear();
+            // what descendants created while they re-ran in the middle of the teardown died with them
+            w.sh.borrow_mut().kill(seq);
         }
         Stmt::DisposeCur => {
             let cur = w.sh.borrow().cur();
             w.sh.borrow_mut().kill(cur);
             use_current_scope().dispose();
             w.sh.borrow_mut().provided[cur].clear();
+            w.sh.borrow_mut().kill(cur);
         }
         Stmt::Batch(b) => {
             w.sh.borrow_mut().batch_depth += 1;
